@@ -185,16 +185,21 @@ fn num(rng: &mut StdRng, p_none: f64) -> i64 {
     }
 }
 
-/// the anchor instants of MC_Render (calendar records the specification can use directly)
+/// calendar records the specification can use directly (it re-validates them with Calendar!ValidCivil)
 fn instant(rng: &mut StdRng, p_none: f64) -> (Value, Value) {
     if rng.gen_bool(p_none) {
         return (json!({"c": {"day": 0, "y": 1970, "m": 1, "d": 1, "wd": 3, "yd": 1}, "sod": -1}), json!({"s": 0, "v": []}));
     }
-    let anchors = [(19782u64, 2024, 2, 29, 3, 60), (47541, 2100, 3, 1, 0, 60), (0, 1970, 1, 1, 3, 1), (10957, 2000, 1, 1, 5, 1)];
-    let (day, y, m, d, wd, yd) = anchors[rng.gen_range(0..anchors.len())];
+    // anchors, the range the calendar automaton walks, the far future, and years with five digits
+    let day: u64 = match rng.gen_range(0..10) {
+        0..=3 => [19782u64, 47541, 0, 10957][rng.gen_range(0..4)],
+        4..=5 => rng.gen_range(0..=84005),
+        6..=7 => rng.gen_range(84006..=2_932_896),
+        8 => [2_932_896u64, 2_932_897, 115_740][rng.gen_range(0..3)],
+        _ => rng.gen_range(2_932_897..=3_000_000),
+    };
     let sod: u64 = rng.gen_range(0..86400);
-    (json!({"c": {"day": day, "y": y, "m": m, "d": d, "wd": wd, "yd": yd}, "sod": sod}),
-     json!({"s": 1, "v": to_cps(&(day * 86400 + sod).to_string())}))
+    (json!({"c": civil_json(day), "sod": sod}), json!({"s": 1, "v": to_cps(&(day * 86400 + sod).to_string())}))
 }
 
 pub fn random_assignment(rng: &mut StdRng) -> Value {
